@@ -168,11 +168,28 @@ pub fn run_c03(tier: Tier) {
             return;
         }
     }
+    // several metadata entries in one document (repeated keys, aliases, entries that override each other)
+    let lines = meta_lines_alphabet();
+    c.part(describe_alphabet(&lines));
+    string_sweep("C03 metadata entries", &lines, 0, tier.pick(4, 5), corners.clone(), None, c03_eval);
+    if c.has_violations() {
+        return;
+    }
     crate::corpus::c03_edits(tier);
     size_boundary_sweep("C03 sizes", corners, c03_eval);
 }
 
 // ---------------------------------------------------------------------------
+
+/// whole metadata entries in both spellings, chosen to interact (time vs prep / cook time, aliases, repeats, invalid values)
+pub fn meta_lines_alphabet() -> Alphabet {
+    Alphabet::new(
+        "A_meta_lines",
+        &[
+            ">> time: 1h\n", ">> prep time: 5\n", ">> cook time: 3\n", ">> time: soon\n", ">> duration: 10\n", ">> servings: 2\n", ">> servings: 2|2\n", ">> serves: 3\n", ">> tags: a\n", "step @a{1%kg}\n", "---\n", "time: 1h\n", "prep time: 5 min\n", "servings: [4, 2]\n",
+        ],
+    )
+}
 
 pub fn run_c04(tier: Tier) {
     let c = ctx();
@@ -229,7 +246,7 @@ pub fn run_c05(tier: Tier) {
         return;
     }
     // fence pairs with content before, between and after
-    let fence = Alphabet::new("A_fence", &["a", " ", "\n", "---\n", "---", "--- \n", "k: v\n", "@b{1}", ">> k: v\n", "-", "\r\n", "= s\n", "---- t\n", "--- x: y\n"]);
+    let fence = Alphabet::new("A_fence", &["a", " ", "\n", "---\n", "---", "--- \n", "k: v\n", "@b{1}", ">> k: v\n", "-", "\r\n", "= s\n", "---- t\n", "--- x: y\n", "k: [-1]\n", "-]"]);
     c.part(describe_alphabet(&fence));
     string_sweep("C05 fences", &fence, 0, tier.pick(5, 6), two.clone(), None, c05_check);
     crate::corpus::edits_sweep("C05 corpus edits", tier, two.clone(), c05_check);
@@ -268,6 +285,13 @@ pub fn run_c06(tier: Tier) {
     );
     c.part(describe_alphabet(&blocks));
     string_sweep("C06 blocks", &blocks, 0, tier.pick(6, 7), corners.clone(), None, c06_check);
+    if c.has_violations() {
+        return;
+    }
+    // every combination of modifier characters after a marker, next to a definition of the same name
+    let mods = Alphabet::new("A_modifiers", &["@a{1} ", "@", "#", "&", "+", "?", "-", "a", "{}", " "]);
+    c.part(describe_alphabet(&mods));
+    string_sweep("C06 modifiers", &mods, 0, tier.pick(6, 7), corners.clone(), None, c06_check);
     if c.has_violations() {
         return;
     }
@@ -316,6 +340,10 @@ pub fn run_c14(tier: Tier) {
     c.part(describe_alphabet(&blocks));
     string_sweep("C14 blocks", &blocks, 0, 3, all.clone(), None, c14_check);
     string_sweep("C14 blocks", &blocks, 4, tier.pick(4, 5), corners.clone(), None, c14_check);
+    string_sweep("C14 metadata entries", &meta_lines_alphabet(), 0, tier.pick(4, 5), two.clone(), None, c14_check);
+    if c.has_violations() {
+        return;
+    }
     crate::corpus::edits_sweep("C14 corpus edits", tier, two, c14_check);
 }
 
